@@ -136,12 +136,41 @@ func verifC06Step() {
 	g := gs[0]
 	a0, c0 := g.AcknowledgedSeq(), g.ConsumedSeq()
 	qa0 := fq.Queue().AcknowledgedSeq()
-	switch verifChoose("op", 8) {
+	op := verifChoose("op", 9)
+	switch op {
 	case 7: // set the consumed position (re-consume from an earlier point, or skip ahead)
 		x := verifRange("setConsumed", -1, 200000)
 		verifAssume(x >= a0 && x <= appended)
 		g.SetConsumedSeq(x)
 		verifAssert(g.ConsumedSeq() == x && g.AcknowledgedSeq() == a0, "set-consumed moves consumed only")
+	case 8: // explicit index reset (replica/partition.ResetReplicaIndex): forwards or backwards
+		x := verifRange("resetTo", -1, 200000)
+		stopped := verifChoose("otherGroupStoppedDuringReset", 2) == 1
+		if stopped {
+			fq.StopConsumerGroup(names[1])
+			gs = gs[:1]
+		}
+		fq.SetAppendedSeq(x)
+		if stopped {
+			// the group comes back (its directory is still there): it must fit the reset queue
+			g1, err := fq.GetOrCreateConsumerGroup(names[1])
+			verifAssert(err == nil && g1 != nil, "a stopped group can be opened again after an index reset")
+			if g1 != nil {
+				verifGroupInvariant(fq, g1, "group reopened after an index reset")
+				gs = append(gs, g1)
+				gs = gs[:1]
+			}
+		}
+		verifAssert(fq.Queue().AppendedSeq() == x, "an index reset sets the appended position")
+		verifAssert(fq.Queue().AcknowledgedSeq() == x, "an index reset aligns the queue's acknowledged position with the appended position")
+		for i := range gs {
+			verifAssert(gs[i].ConsumedSeq() == x && gs[i].AcknowledgedSeq() == x, "an index reset aligns every existing group")
+		}
+		// the first message appended after the reset is readable under the next sequence
+		verifAssert(fq.Queue().Put([]byte{4, 5}) == nil, "append after an index reset succeeds")
+		verifAssert(fq.Queue().AppendedSeq() == x+1, "append after an index reset gets the next sequence")
+		_, err := fq.Queue().Get(x + 1)
+		verifAssert(err == nil, "a message appended after an index reset is readable (no group acknowledged it)")
 	case 0: // consume
 		s := g.consume()
 		if c0 < appended {
@@ -207,7 +236,9 @@ func verifC06Step() {
 		verifGroupInvariant(fq, gs[i], "step")
 	}
 	verifQueueInvariant(fq, "step")
-	verifAssert(fq.Queue().AcknowledgedSeq() >= qa0, "queue acknowledged position is monotone")
+	if op != 8 {
+		verifAssert(fq.Queue().AcknowledgedSeq() >= qa0, "queue acknowledged position is monotone")
+	}
 	// all positions survive close and reopen
 	gc1, ga1 := g.ConsumedSeq(), g.AcknowledgedSeq()
 	qa1, qp1 := fq.Queue().AcknowledgedSeq(), fq.Queue().AppendedSeq()
